@@ -723,7 +723,11 @@ def main(ctx):
         rec.ok(case, outcome="runs:%s" % what, nontrivial=True, calls=1)
 
     from mc.longarr import marks as _marks
-    runits = [(w, m + 5, run, first) for w in ("unique", "rem_dup") for m in _marks(ctx)[:ctx.pick(1, 4)] for (run, first) in ((7, 3), (11, 5))]
+    from mc.longarr import harvest_lengths
+    _hl, _hb = harvest_lengths([nu])
+    ctx.notes.append("long-runs: integer constants harvested from esutil.numpy_util: %r" % (_hb,))
+    runits = [(w, m + 5, run, first) for w in ("unique", "rem_dup") for m in tuple(_marks(ctx)[:ctx.pick(1, 4)]) + tuple(3 * b for b in _hb if 3 * b <= 20000000)
+              for (run, first) in ((7, 3), (11, 5))]
     ctx.lattice("long-runs", runits, one_runs, bounds=dict(lengths=sorted({u[1] for u in runits}), run_lengths=[7, 11]))
 
     SIZES = ctx.pick([(100, 4095), (100, 4096), (3000, 5000), (70, 70000)], [(100, 4095), (100, 4096), (3000, 5000), (5000, 3000), (70, 70000), (70000, 70000), (65536, 65537)])
